@@ -207,7 +207,7 @@ Definition lf_step (st : lfile) (line : bytes) : lfile :=
     else if beq kw (bs "import") then
       match args with
       | ty :: src :: mnt :: _ =>
-        MkLF (lf_base st) (lf_mounts st ++ [MkNM (clean mnt) (clean src) ty]) (lf_exports st) (lf_errors st)
+        MkLF (lf_base st) (lf_mounts st ++ [MkNM (clean (sl :: mnt)) (clean src) ty]) (lf_exports st) (lf_errors st)
       | _ => err
       end
     else if beq kw (bs "export") then
@@ -806,21 +806,31 @@ Definition mount_one e (c : cfgT) (ld : ldefs) (name : bytes) : M ldefs :=
     match expand_config_mounts c (ld_map ld) l with
     | None => fail
     | Some xs =>
-      mapM_ (fun x =>
-        match get_mount ms (x_mount x) with
-        | Some _ => ret tt
-        | None =>
-          f <- get_fs ;;
-          (if exists_ f (x_source x) then ret tt
-           else if in_any_layer_dir 64 (c_layers c) (x_source x) then fs_mkdir e (x_source x)
-           else fail) ;;;
-          fs_mount e (x_source x) (x_mount x) (x_fstype x) []
-        end) xs ;;;
-      ld1 <- refresh_mounts c ld ;;
+      ld0 <- (fix go (xs : list xmount) (ld : ldefs) : M ldefs :=
+                match xs with
+                | [] => ret ld
+                | x :: r =>
+                  match get_mount (pr_mounts (ld_probe ld)) (x_mount x) with
+                  | Some mnt =>
+                    if source_is_expected (pr_devs (ld_probe ld)) mnt (x_source x) then go r ld else fail
+                  | None =>
+                    f <- get_fs ;;
+                    (if exists_ f (x_source x) then ret tt
+                     else if in_any_layer_dir 64 (c_layers c) (x_source x) then fs_mkdir e (x_source x)
+                     else fail) ;;;
+                    fs_mount e (x_source x) (x_mount x) (x_fstype x) [] ;;;
+                    ld' <- refresh_mounts c ld ;;
+                    go r ld'
+                  end
+                end) xs ld ;;
+      ld1 <- refresh_mounts c ld0 ;;
       f <- get_fs ;;
       match lm_get (ld_map ld1) name with
       | None => panic
-      | Some l1 => ret (set_layer ld1 (find_layerstate c f ld1 l1))
+      | Some l1 =>
+        let l2 := find_layerstate c f ld1 l1 in
+        guard (negb (l_state l2 =? st_error)) ;;;
+        ret (set_layer ld1 l2)
       end
     end
   end.
@@ -945,11 +955,15 @@ Definition base_set_up (c : cfgT) (f : fsT) : bool :=
 Inductive command :=
 | CInit | CAdd (name base configfile : bytes) | CRemove (name : bytes) (files : bool)
 | CRename (a b0 : bytes) | CRebase (a b0 : bytes) | CMkdirs (a : bytes) | CMount (a : bytes)
-| CUmount (a : bytes) (all : bool) | CShake | CChroot (a : bytes) | CProbe.
+| CUmount (a : bytes) (all : bool) | CShake | CChroot (a : bytes) | CProbe
+(* not layercake: somebody mounts / unmounts by hand (used to build prior states) *)
+| CKMount (src tgt fstype : bytes) (flags : N) (data : bytes) | CKUmount (tgt : bytes).
 
 Definition run_command e (c : cfgT) (um : users_map) (cmd : command) : M (option ldefs) :=
   match cmd with
   | CInit => init_base e c ;;; ret None
+  | CKMount s t ty fl d => apply_op (OMount s t ty fl d) ;;; ret None
+  | CKUmount t => apply_op (OUmount t 0) ;;; ret None
   | _ =>
     f <- get_fs ;;
     guard (base_set_up c f) ;;;
@@ -965,7 +979,7 @@ Definition run_command e (c : cfgT) (um : users_map) (cmd : command) : M (option
            | CShake => shake e c ld
            | CChroot a => chroot_prepare e c ld a
            | CProbe => ret ld
-           | CInit => ret ld
+           | _ => ret ld
            end ;;
     ret (Some ld')
   end.
